@@ -1087,3 +1087,109 @@ def orc_c19(case, obs):
 
 
 prop("C19", ["c19_peek_start", "c19_peek_frag"], ["SYS"], gen_c19, [orc_c19])
+
+
+# ------------------------------------------------------------------------------------------------
+# C07 isolation of concurrent reassemblies under interleavings
+# ------------------------------------------------------------------------------------------------
+def gen_c07(rng, t):
+    out = []
+    for i in range(500 * t):
+        c = Case("c07_%d" % i)
+        slots = rng.choice([2, 3, 4, 5])
+        ntr = rng.range(2, min(4, slots))
+        maxpdu = 48
+        c.add("DNEW %d %d simple" % (slots, maxpdu))
+        nb = min(slots + 2, ntr + 2)
+        for k in range(nb):
+            c.add("DPROV %d" % (maxpdu + k))
+        base = rng.below(200)
+        ids = rng.fork()
+        fids = []
+        while len(fids) < ntr:
+            f = (base + ids.below(slots * 3)) % 256
+            if all(f % slots != g % slots for g in fids):
+                fids.append(f)
+        trains, exp = [], {}
+        for f in fids:
+            pl = rng.range(2, maxpdu)
+            pdu = rng.bytes(pl)
+            nfr = rng.range(1, 4)
+            sizes, left = [], pl
+            for j in range(nfr):
+                lo = 0 if j == 0 else 1          # only a first fragment may be empty
+                if left - 1 < lo:
+                    break
+                s = rng.range(lo, left - 1)
+                sizes.append(s)
+                left -= s
+            if not sizes:
+                sizes = [0]
+            lab = rng.choice([L6A, L3A, "B", L6B])
+            pt = rng.choice([0x0800, 0x86DD])
+            trains.append([(f, p) for p in fragment(pdu, f, pt, lab, sizes)])
+            exp[f] = (pdu, pt, lab)
+        # order-preserving merge
+        seq = []
+        pos = [0] * ntr
+        while any(pos[k] < len(trains[k]) for k in range(ntr)):
+            k = rng.choice([k for k in range(ntr) if pos[k] < len(trains[k])])
+            seq.append(("own",) + trains[k][pos[k]])
+            pos[k] += 1
+        # strays at random positions: aliasing continuation packets, unknown ids, complete packets, garbage
+        nstray = rng.range(0, 6)
+        free_slots = [x for x in range(slots) if all(f % slots != x for f in fids)]
+        for _ in range(nstray):
+            r = rng.below(6)
+            f = rng.choice(fids)
+            if r == 0:
+                p = build_inter((f + slots) % 256, rng.bytes(3))
+            elif r == 1:
+                p = build_end((f + slots * 2) % 256, rng.bytes(2), rng.below(1 << 32))
+            elif r == 2:
+                p = build_complete(0x0800, rng.choice(["B", L6A]), rng.bytes(rng.range(0, 10)))
+            elif r == 3:
+                p = rng.bytes(rng.range(0, 6))
+            elif r == 4 and free_slots:
+                p = build_inter(rng.choice(free_slots), rng.bytes(4))
+            else:
+                p = b"\x00\x00\x00"
+            seq.insert(rng.below(len(seq) + 1), ("stray", None, p))
+        c.meta["c07"] = {"exp": {f: (hx(v[0]), v[1], v[2]) for f, v in exp.items()}, "kinds": []}
+        for kind, f, p in seq:
+            c.add("DECAP %s" % hx(p))
+            c.meta["c07"]["kinds"].append((kind, f, len(c.ops) - 1))
+            if kind == "stray":
+                c.add("DPROVBACK")      # a stray complete packet took a buffer: give it back
+        out.append(c)
+    return out
+
+
+def orc_c07(case, obs):
+    bad = []
+    m = case.meta.get("c07")
+    if not m:
+        return bad
+    delivered = Counter()
+    for kind, f, idx in m["kinds"]:
+        ob = obs[idx]
+        if kind != "own":
+            continue
+        w, d = kv(ob)
+        pdu, pt, lab = m["exp"][f]
+        p = parse_packet(tok_bytes(case.ops[idx].split(" ")[1]))
+        if p.kind == "E":
+            if w[:2] != ["ok", "completed"] or d.get("data") != pdu or int(d.get("ptype", -1)) != pt or d.get("label") != lab:
+                bad.append("train of frag id %d: end fragment answered %s" % (f, ob[:100]))
+            else:
+                delivered[f] += 1
+        else:
+            if w[:2] != ["ok", "fragmented"] or int(d.get("ptype", -1)) != pt or d.get("label") != lab:
+                bad.append("train of frag id %d: %s fragment answered %s" % (f, p.kind, ob[:100]))
+    for f in m["exp"]:
+        if delivered[f] != 1 and not bad:
+            bad.append("PDU of frag id %d delivered %d times" % (f, delivered[f]))
+    return bad
+
+
+prop("C07", ["c07_frame", "c07_interleave", "c07_first_establishes"], ["DEC", "MEM"], gen_c07, [orc_c07])
